@@ -351,7 +351,9 @@ impl Qcow2Header {
             let end = offset
                 .checked_add(length as u64)
                 .ok_or("Backing file name offset is invalid (too high)")?;
-            if end >= cluster_size {
+            // the name has to lie inside the first cluster; it may end
+            // exactly at the cluster's end
+            if end > cluster_size {
                 return Err("Backing file name offset is invalid (too high)".into());
             }
 
